@@ -309,7 +309,7 @@ def taken(log):
     return None
 
 
-@contract("bromelia.statemachine.Open.run", prop="C06", name="tick")
+@contract("bromelia.statemachine.Open.run", prop="C06", name="tick", also=("C03",))
 class _OpenRun:
     args = {"self": state_obj(SM.Open, T.NoneS, mode=T.Const("CLIENT"), recv=open_recv_cases(),
                               send=T.Sync("queue", extra=True))}
